@@ -320,7 +320,7 @@ pub const PROP: Prop = Prop {
     id: "C06",
     level: "exploration",
     runs_quick: 1_500,
-    runs_thorough: 120_000,
+    runs_thorough: 25_000,
     generate,
     execute,
     shrink,
